@@ -4,8 +4,6 @@ package c08
 
 import (
 	"bytes"
-	"crypto/ecdsa"
-	"crypto/elliptic"
 	"crypto/sha256"
 	"encoding/base64"
 	"encoding/binary"
@@ -29,6 +27,16 @@ func TestMain(m *testing.M) {
 	stats.Describe("exploration",
 		"Keys: all four key types, fresh keys derived from a drawn seed (Ed25519 through GenerateEd25519Key, ECDSA/Secp256k1 from a seeded scalar, "+
 			"plus per-process keys from the Generate* functions; RSA-2048 from a per-process pool and one embedded fixed key), drawn messages. "+
+			"Key CLASSES (size / curve; keyclass_test.go): ECDSA keys on every curve the API takes - P-224, P-256, P-384, P-521 - from a seeded scalar through ECDSAKeyPairFromKey or per process from "+
+			"GenerateECDSAKeyPairWithCurve; RSA keys at and next to the documented bounds: 2048 (= MinRsaKeyBits, GenerateRSAKeyPair), 2049 (GenerateRSAKeyPair per process), 8191 and 8192 (= the documented maximum; fixtures "+
+			"assembled from two openssl-made primes with math/big and handed over through KeyPairFromStdKey). Every generator of a key (drawKey / drawSigner / envelope signers) draws the class: curves with weights "+
+			"P-256 20/32 and 4/32 each other curve (envelope signers 29/32 and 1/32), RSA 2048:2049 = 3:1, and - only where a key signs a few times per case (TestKeyRoundTrip, TestSignVerify, TestPeerstoreConsume signers, envelope signers) - "+
+			"8191/8192-bit keys in 2 (envelopes 1) of 256 RSA draws (0.1 s per signature); label class:<class> counts them per test. TestKeySizesAndCurves draws (class, way the key reaches the library) with equal weights from "+
+			"{4 curves} x {generate, std = ECDSAKeyPairFromKey, wire = Unmarshal{Private,Public}Key of crypto/x509 DER framed with protowire} + RSA {2048, 2049} x {generate, std = KeyPairFromStdKey, wire} + RSA 8192 x {std, wire} + RSA 8191 x {wire} "+
+			"+ RSA {2047, 8193} x {wire} (one step OUTSIDE the bounds) and applies the whole key contract: Sign/Verify (own message, mutated message, another key of the type), public and private marshal/unmarshal round trip through every exported path, "+
+			"peer ID = reference definition and all its forms, one envelope (hrec / peer record / voucher) sealed by the key accepted by every receiver incl. both address books under its own domain and judged by the acceptance rule under a foreign domain. "+
+			"Outside the bounds the library may refuse; required is only: a size GenerateRSAKeyPair agrees to make (probed with a failing reader) is a size Unmarshal*Key reads, and a key that IS accepted obeys the contract. "+
+			"In TestKeySizesAndCurves NON-TRIVIAL = a class other than the type's default (P-256, RSA-2048) or a refused key; DISTINCT = distinct (class, way, seed, message). "+
 			"Serialized forms (marshalled public/private keys, peer IDs in binary/base58/CID text, envelopes, PeerRecords, relay vouchers) are "+
 			"mutated with: bit/byte flips at drawn positions (and at EVERY position of one sample per key type x record kind, deterministic sweep), "+
 			"truncation, extension, insertion, deletion, protobuf field edits through protowire (edit inside a field keeping the framing valid, "+
@@ -47,7 +55,9 @@ func TestMain(m *testing.M) {
 			"DISTINCT = distinct (candidate bytes, requested domain, receiver) resp. distinct (key, message, mutation) scenario.",
 		"standard hardness assumptions: nobody signs for a pool key without the harness (a candidate accepted with a sealed tuple's exact content is legitimate)",
 		"signature malleability that leaves content, signer and domain unchanged is not a violation (statement is about content, domain and signer)",
-		"ECDSA(P-256) signatures are randomised by Go: candidate bytes of ECDSA cases are not reproducible, verdicts do not depend on them",
+		"ECDSA signatures are randomised by Go: candidate bytes of ECDSA cases are not reproducible, verdicts do not depend on them",
+		"'supported' RSA sizes are the documented bounds MinRsaKeyBits (2048) <= bits <= 8192, both included; keys outside are not required to be accepted, and out-of-bounds keys wrapped by KeyPairFromStdKey (which checks no size) are not judged",
+		"the library's own generation of 8191/8192-bit RSA keys is not run (minutes per key): keys of these sizes are fixtures, GenerateRSAKeyPair's size check is probed with a reader that fails; RSA sizes strictly between 2049 and 8191 are not sampled",
 		"peer IDs obtained by mutation that use a multihash other than identity / sha2-256 are only required to round-trip through binary and CID text (Decode documents base58 for identity/sha2-256 only)",
 	)
 	hx.Main(m)
@@ -58,6 +68,7 @@ func TestMain(m *testing.M) {
 
 type kp struct {
 	typ  string
+	cls  string // key class (keyclass_test.go): typ, "ecdsa/<curve>" or "rsa/<bits>"
 	tag  string // identifies the key in fingerprints
 	priv ic.PrivKey
 	pub  ic.PubKey
@@ -75,9 +86,10 @@ func expand(label string, n int) []byte {
 	return out
 }
 
-func mustKP(typ, tag string, priv ic.PrivKey, err error) *kp {
+func mustKP(cls, tag string, priv ic.PrivKey, err error) *kp {
+	typ := classType(cls)
 	if err != nil {
-		panic(fmt.Sprintf("key generation %s/%s: %v", typ, tag, err))
+		panic(fmt.Sprintf("key generation %s/%s: %v", cls, tag, err))
 	}
 	pub := priv.GetPublic()
 	m, err := ic.MarshalPublicKey(pub)
@@ -88,7 +100,7 @@ func mustKP(typ, tag string, priv ic.PrivKey, err error) *kp {
 	if err != nil {
 		panic(err)
 	}
-	return &kp{typ: typ, tag: typ + "/" + tag, priv: priv, pub: pub, pubM: m, id: id}
+	return &kp{typ: typ, cls: cls, tag: cls + "/" + tag, priv: priv, pub: pub, pubM: m, id: id}
 }
 
 // fixedRSA is a 2048-bit RSA private key (PKCS#1 DER, base64) generated once for this
@@ -125,70 +137,9 @@ func fixedRSAKey() *kp {
 			panic(err)
 		}
 		priv, err := ic.UnmarshalRsaPrivateKey(der)
-		rsaFixed = mustKP("rsa", "fixed", priv, err)
+		rsaFixed = mustKP("rsa/2048", "fixed", priv, err)
 	})
 	return rsaFixed
-}
-
-// poolKey returns a per-process key produced by the library's Generate* function.
-func poolKey(typ string, i int) *kp {
-	k := fmt.Sprintf("%s/pool%d", typ, i)
-	poolMu.Lock()
-	defer poolMu.Unlock()
-	if v, ok := poolCache[k]; ok {
-		return v
-	}
-	id := keys.Get(typ, 1000+i)
-	v := mustKP(typ, fmt.Sprintf("pool%d", i), id.Priv, nil)
-	poolCache[k] = v
-	return v
-}
-
-func nRSA() int { return hx.Pick(2, 5) }
-
-// freshKey derives a key of the given type from seed. Ed25519 goes through
-// GenerateEd25519Key with a deterministic reader; Secp256k1 and ECDSA are built from
-// a seeded scalar (their Generate functions ignore / randomise the reader), every
-// eighth seed uses a per-process key from the library's Generate function instead;
-// RSA comes from a small per-process pool (generation is slow).
-func freshKey(typ string, seed uint64) *kp {
-	tag := fmt.Sprintf("%d", seed)
-	switch typ {
-	case "ed25519":
-		priv, _, err := ic.GenerateEd25519Key(keys.Reader("c08/ed/" + tag))
-		return mustKP(typ, tag, priv, err)
-	case "secp256k1":
-		if seed%8 == 7 {
-			return poolKey(typ, int(seed/8%4))
-		}
-		priv, err := ic.UnmarshalSecp256k1PrivateKey(expand("c08/secp/"+tag, 32))
-		return mustKP(typ, tag, priv, err)
-	case "ecdsa":
-		if seed%8 == 7 {
-			return poolKey(typ, int(seed/8%4))
-		}
-		for ctr := 0; ; ctr++ {
-			sk, err := ecdsa.ParseRawPrivateKey(elliptic.P256(), expand(fmt.Sprintf("c08/ecdsa/%s/%d", tag, ctr), 32))
-			if err != nil {
-				continue // scalar out of range (probability 2^-32)
-			}
-			priv, _, err := ic.ECDSAKeyPairFromKey(sk)
-			return mustKP(typ, tag, priv, err)
-		}
-	case "rsa":
-		return poolKey(typ, int(seed%uint64(nRSA())))
-	}
-	panic("unknown key type " + typ)
-}
-
-func drawKey(rt *rapid.T, label string) *kp {
-	typ := rapid.SampledFrom(keyTypes).Draw(rt, label+"-type")
-	seed := rapid.Uint64Range(0, 1<<20).Draw(rt, label+"-seed")
-	return freshKey(typ, seed)
-}
-
-func drawKeyOfType(rt *rapid.T, typ, label string) *kp {
-	return freshKey(typ, rapid.Uint64Range(0, 1<<20).Draw(rt, label+"-seed"))
 }
 
 // refID is the peer ID definition from the statement, computed without the multihash
